@@ -177,10 +177,13 @@ def balancer_parts(ctx):
     ul = uop_loops[0]
     uop = U(ul.target)
     parts = {"f": f, "uop_loop": ul}
+    # the per-micro-op definitions: assignments of the micro-op loop that are not inside the step loop (first definition
+    # of each name; they may sit under guards - `if len(indices) < 2: continue` nests the rest)
     d = {}
-    for n in ul.body:
-        if isinstance(n, ast.Assign) and isinstance(n.targets[0], ast.Name):
-            d[n.targets[0].id] = n
+    inner = [n for n in ast.walk(ul) if isinstance(n, (ast.For, ast.While)) and n is not ul]
+    for n in ast.walk(ul):
+        if isinstance(n, ast.Assign) and isinstance(n.targets[0], ast.Name) and not any(C.in_subtree(n, l) for l in inner):
+            d.setdefault(n.targets[0].id, n)
     parts["defs"] = d
     steps = [n for n in ast.walk(ul) if isinstance(n, ast.For) and C.is_call_to(n.iter, "range") and "INC" in U(n.iter)]
     if len(steps) != 1:
@@ -202,7 +205,7 @@ def _r2(ctx, P):
     full = [a for a in ind_defs if U(a.value) == "[port_list.index(p) for p in ports]"]
     filt = [a for a in ind_defs if pm.match("[M_x for M_x in indices if M_c]", a.value) is not None]
     ok = ports_def is not None and U(ports_def.value) in ("list(%s[1])" % uop, "%s[1]" % uop) and len(full) == 1 and len(full) + len(
-        filt) == len(ind_defs) and full[0] in ul.body and all(C.cfg_of(f).dominates(full[0], x) for x in filt)
+        filt) == len(ind_defs) and C.enclosing_loop(full[0]) is ul and all(C.cfg_of(f).dominates(full[0], x) for x in filt)
     pl = [a for a in C.assigns_to(f.node, "port_list")]
     ok = ok and bool(pl) and U(pl[0].value) == "self._machine_model.get_ports()"
     ctx.check(ok, "R2", "indices = positions of the micro-op's own ports in the model's port list", f.where(ul),
